@@ -1,5 +1,5 @@
 SPECIFICATION Spec
-CONSTANT Chars <- C5
+CONSTANT Chars <- C6
 CONSTANT MaxDir = 4
 CONSTANT MaxName = 2
 INVARIANT NameIsSuffix
